@@ -82,7 +82,7 @@ func schemeOf(id int64) barcode.ColorScheme {
 	var fgc, bgc color.Color
 	var m color.Model
 	for {
-		switch id % 8 {
+		switch id % 12 {
 		case 0:
 			m, fgc, bgc = color.GrayModel, color.Gray{u8()}, color.Gray{u8()}
 		case 1:
@@ -97,9 +97,20 @@ func schemeOf(id int64) barcode.ColorScheme {
 			m, fgc, bgc = color.Alpha16Model, color.Alpha16{u16()}, color.Alpha16{u16()}
 		case 6:
 			m, fgc, bgc = color.RGBA64Model, color.RGBA64{u16(), u16(), u16(), 0xffff}, color.RGBA64{u16(), u16(), u16(), 0xffff}
-		default:
+		case 7:
 			// inverted: light bars on a dark ground
 			m, fgc, bgc = color.RGBAModel, color.RGBA{255, 255, 200, 255}, color.RGBA{u8() / 4, u8() / 4, u8() / 4, 255}
+		case 8:
+			// low contrast, both light
+			m, fgc, bgc = color.RGBAModel, color.RGBA{255, 255, 200 + u8()/8, 255}, color.RGBA{255, 255, 255, 255}
+		case 9:
+			// low contrast, both dark
+			m, fgc, bgc = color.RGBAModel, color.RGBA{0, 0, 60 + u8()/4, 255}, color.RGBA{0, 0, 0, 255}
+		case 10:
+			// colours that are not of the model's own type
+			m, fgc, bgc = color.GrayModel, color.RGBA{200, 30, u8(), 255}, color.NRGBA{u8(), 255, 30, 128}
+		default:
+			m, fgc, bgc = color.RGBAModel, color.NRGBA{255, u8(), 0, 128}, color.Gray{200 + u8()/8}
 		}
 		if fgc != bgc {
 			break
